@@ -361,6 +361,14 @@ SendToSubscriber:
 			return
 		}
 
+		// when the subscriber is closing, the select below could still pick the send case
+		select {
+		case <-s.closing:
+			s.logger.Trace("Closing, message discarded", logFields)
+			return
+		default:
+		}
+
 		select {
 		case s.outputChannel <- msgToSend:
 			s.logger.Trace("Sent message to subscriber", logFields)
